@@ -399,25 +399,32 @@ class Engine:
             if (self.corr_fail or proof_fail) and not self.prop_fail:
                 ctx2 = Ctx(pid, self.tier, self.seed, scale=8.0)
                 t1 = time.time()
-                for case in self.mod.generate(ctx2):
-                    if case[0] != "prop":
-                        continue
-                    v = self.run_case(case)
-                    if v is not None and self.classify(v) not in known_keys:
-                        self.prop_fail.append(v)
-                        break
-                    if time.time() - t1 > budget_s:
-                        break
+                try:
+                    for case in self.mod.generate(ctx2):
+                        if case[0] != "prop":
+                            continue
+                        v = self.run_case(case)
+                        if v is not None and self.classify(v) not in known_keys:
+                            self.prop_fail.append(v)
+                            break
+                        if time.time() - t1 > budget_s:
+                            break
+                except Exception as e:  # noqa  (a generator that cannot drive the tree under test: already recorded above)
+                    if not any("case generation" in m for m in proof_fail):
+                        proof_fail.append("case generation (search) could not drive the implementation: " + repr(e)[:300])
                 # neighbours of the disagreeing inputs, if the module offers them
                 if not self.prop_fail and hasattr(self.mod, "search_near"):
-                    for cf in self.corr_fail[:5]:
-                        for case in self.mod.search_near(ctx2, cf):
-                            v = self.run_case(case)
-                            if v is not None and self.classify(v) not in known_keys:
-                                self.prop_fail.append(v)
+                    try:
+                        for cf in self.corr_fail[:5]:
+                            for case in self.mod.search_near(ctx2, cf):
+                                v = self.run_case(case)
+                                if v is not None and self.classify(v) not in known_keys:
+                                    self.prop_fail.append(v)
+                                    break
+                            if self.prop_fail:
                                 break
-                        if self.prop_fail:
-                            break
+                    except Exception:  # noqa
+                        pass
 
         # ---- verdict ----
         def dump(obj, tag):
